@@ -752,6 +752,9 @@ func run(c *Ctx) {
 	thorough := c.Thorough()
 	jobs := jobsFor(c.Rng.Fork(), thorough)
 	deadline := 60 * time.Second
+	if ms, err := strconv.Atoi(os.Getenv("C10_DEADLINE_MS")); err == nil && ms > 0 {
+		deadline = time.Duration(ms) * time.Millisecond // for mutation experiments
+	}
 	mrng := c.Rng.Fork()
 
 	ref := map[*encJob]string{}
